@@ -512,7 +512,20 @@ func registerBig(e *Engine, simple func(string, func(*Run, []Value) Value)) {
 		if x.IsConst() {
 			return r.intTerm(int64(x.CI.BitLen()))
 		}
-		panic(engineErr("BitLen of symbolic big.Int"))
+		// symbolic: the byte length forks (as Bytes does); the bit length of the
+		// top byte is an ite chain
+		bs := r.bigBytes(x)
+		if len(bs) == 0 {
+			return r.intTerm(0)
+		}
+		c := r.ctx
+		top := bs[0]
+		bits := c.BV(64, 0)
+		for k := 1; k <= 8; k++ {
+			// top >= 2^(k-1)  =>  at least k bits
+			bits = c.Ite(c.BVUle(c.BV(8, uint64(1)<<uint(k-1)), top), c.BV(64, uint64(k)), bits)
+		}
+		return c.BVAdd(c.BV(64, uint64(8*(len(bs)-1))), bits)
 	})
 	simple(m("FillBytes"), func(r *Run, a []Value) Value {
 		bs := r.bigBytes(r.iabs(r.bigOf(a[0])))
